@@ -1,4 +1,5 @@
 """C08 `-- stylua: ignore` regions are reproduced verbatim - static necessary conditions."""
+import r_guard
 import r_skip
 import r_directive
 import r_range
@@ -24,4 +25,4 @@ def run(ctx):
     return [r_skip.rule_skip_edge(ctx, "C08", statuses=("Skip",)), r_skip.rule_post(ctx, "C08"),
             r_skip.rule_toggle(ctx, "C08"), r_skip.rule_sort_guard(ctx, "C08", must_block=("Skip",)),
             r_directive.rule_directive(ctx, "C08"), r_skip.rule_node_type(ctx, "C08"),
-            r_range.rule_ignore_first(ctx, "C08"), r_skip.rule_toggle_chain(ctx, "C08"), r_skip.rule_field_walkers(ctx, "C08")]
+            r_range.rule_ignore_first(ctx, "C08"), r_skip.rule_toggle_chain(ctx, "C08"), r_skip.rule_field_walkers(ctx, "C08"), r_guard.rule_guard(ctx, "C08")]
